@@ -423,7 +423,22 @@ fn mutate(rng: &mut Rng, b: &mut Vec<u8>) {
     3 => {
       // replace the leading varint by an arbitrary (possibly huge) one
       let skip = b.iter().position(|x| x & 0x80 == 0).map(|p| p + 1).unwrap_or(b.len());
-      let mut v = varint::encode(crate::entry::uint(rng, 128));
+      let n: u128 = match rng.below(4) {
+        // counts / lengths at the usize multiplication and addition overflow boundaries
+        0 => *rng.pick(&[
+          (u64::MAX / 11) as u128,
+          (u64::MAX / 11) as u128 + 1,
+          (u64::MAX / 11) as u128 - 1,
+          u64::MAX as u128,
+          u64::MAX as u128 + 1,
+          u64::MAX as u128 - 3,
+          u64::MAX as u128 - 12,
+          1 << 63,
+        ]),
+        1 => rng.below(40) as u128,
+        _ => crate::entry::uint(rng, 128),
+      };
+      let mut v = varint::encode(n);
       v.extend_from_slice(&b[skip..]);
       *b = v;
     }
@@ -490,11 +505,61 @@ pub fn generate(args: &Args, ctx: &mut Ctx, rng: &mut Rng, out: &mut Streams, di
         }
       }
       5 => {
-        // arbitrary push sequences: the builder's state machine and flag asserts
-        let n = rng.below(5);
-        let ops: Vec<String> = (0..n).map(|_| gen_op(rng, dist)).collect();
-        let a = ask(ctx, out, &format!("storage.utxo.ops {fl} {}", ops.join(" ")).trim_end().to_string());
+        // push sequences: the valid order for the flag combination (with raw `push_inscriptions`
+        // mixed in), usually perturbed — the builder's state machine and flag asserts
+        let (sf, af, inf) = (fl.contains('s'), fl.contains('a'), fl.contains('i'));
+        let mut ops: Vec<String> = Vec::new();
+        if rng.chance(3, 4) {
+          ops.push(if sf {
+            format!("r:{}", hex(&gen_ranges(rng, dist)))
+          } else {
+            format!("v:{}", crate::entry::uint(rng, 64))
+          });
+          if af {
+            ops.push(format!("s:{}", hex(&gen_script(rng, dist, false))));
+          }
+          if inf {
+            for (q, o) in gen_ins(rng, dist) {
+              if rng.chance(1, 3) {
+                let mut raw = q.to_le_bytes().to_vec();
+                raw.extend(varint::encode(o.into()));
+                ops.push(format!("I:{}", hex(&raw)));
+              } else {
+                ops.push(format!("i:{q}:{o}"));
+              }
+            }
+          }
+          match rng.below(6) {
+            0 if !ops.is_empty() => {
+              let at = rng.below(ops.len() as u64) as usize;
+              ops.remove(at);
+            }
+            1 if !ops.is_empty() => {
+              let at = rng.below(ops.len() as u64) as usize;
+              let o = ops[at].clone();
+              ops.insert(at, o);
+            }
+            2 if ops.len() > 1 => {
+              let at = rng.below(ops.len() as u64 - 1) as usize;
+              ops.swap(at, at + 1);
+            }
+            3 => {
+              let at = rng.below(ops.len() as u64 + 1) as usize;
+              ops.insert(at, gen_op(rng, dist));
+            }
+            _ => {}
+          }
+        } else {
+          let n = rng.below(5);
+          ops = (0..n).map(|_| gen_op(rng, dist)).collect();
+        }
+        let a = ask(ctx, out, format!("storage.utxo.ops {fl} {}", ops.join(" ")).trim_end());
         dist.hit(&format!("ops_{}", head2(&a)));
+        if let Some(h) = a.strip_prefix("ok ") {
+          let h = h.to_string();
+          ask(ctx, out, &format!("storage.utxo.parse {fl} {h}"));
+          ask(ctx, out, &format!("storage.utxo.pins {fl} {h}"));
+        }
       }
       _ => {
         // encode then mutate, through every reader
